@@ -1,6 +1,7 @@
 package harness
 
 import (
+	"sync/atomic"
 	"encoding/json"
 	"errors"
 	"fmt"
@@ -149,10 +150,15 @@ func hashOf(parts ...any) uint64 {
 // ---- C04 --------------------------------------------------------------------------------
 
 // RunC04 explores interleavings of concurrent calls of every method.
+var unsafeShared atomic.Value
+
 func RunC04(t *testing.T, w *World) {
 	for _, m := range w.Methods {
 		m := m
 		t.Run(m.Name, rapid.MakeCheck(func(rt *rapid.T) { execC04(rt, w, m) }))
+	}
+	if msg, ok := unsafeShared.Load().(string); ok && !t.Failed() {
+		t.Errorf("C04 shared-memory-unsafe-pointer-field: %s", msg)
 	}
 }
 
@@ -320,6 +326,13 @@ func execC04(rt *rapid.T, w *World, m Method) {
 		}
 		src := sources[srcOf(i)]
 		sr, rr := Regions(src), Regions(results[i])
+		if a, b := Overlap(OnlyUnsafe(sr), OnlyUnsafe(rr)); a != nil {
+			// known finding F22: an unsafe.Pointer is a basic type for goverter and is assigned
+			// as is; reported once per world at the end so that every other check still runs
+			Count("c04.unsafe_pointer_target_shared", 1)
+			unsafeShared.CompareAndSwap(nil, fmt.Sprintf("source%s and result%s hold the same unsafe.Pointer target (method %s)", a.Path, b.Path, m.Name))
+		}
+		sr, rr = WithoutUnsafe(sr), WithoutUnsafe(rr)
 		if a, b := Overlap(sr, rr); a != nil {
 			if !m.SkipCopy {
 				rt.Fatalf("C04 shared-memory: source%s and result%s share memory (%s %s)", a.Path, b.Path, a.Kind, a.Type)
